@@ -151,18 +151,51 @@ func applyUnifiedDiff(repo, patchPath string) (map[string][]byte, string) {
 					at = 0
 				}
 			} else if !match(at) {
-				found := -1
-				cnt := 0
-				for p := 0; p+len(hk.old) <= len(src); p++ {
-					if match(p) {
-						cnt++
-						found = p
+				// like patch(1): search elsewhere, then with up to 3 lines of leading/trailing
+				// context dropped (context that drifted because of an unrelated fix nearby)
+				located := false
+				for fuzz := 0; fuzz <= 3 && !located; fuzz++ {
+					lead, trail := 0, 0
+					for lead < fuzz && lead < len(hk.old) && lead < len(hk.new) && hk.old[lead] == hk.new[lead] {
+						lead++
+					}
+					for trail < fuzz && trail < len(hk.old)-lead && trail < len(hk.new)-lead && hk.old[len(hk.old)-1-trail] == hk.new[len(hk.new)-1-trail] {
+						trail++
+					}
+					if fuzz > 0 && lead == 0 && trail == 0 {
+						break
+					}
+					o2, n2 := hk.old[lead:len(hk.old)-trail], hk.new[lead:len(hk.new)-trail]
+					if len(o2) == 0 {
+						break
+					}
+					m2 := func(p int) bool {
+						if p < 0 || p+len(o2) > len(src) {
+							return false
+						}
+						for k, ol := range o2 {
+							if src[p+k] != ol {
+								return false
+							}
+						}
+						return true
+					}
+					found, cnt := -1, 0
+					for p := 0; p+len(o2) <= len(src); p++ {
+						if m2(p) {
+							cnt++
+							found = p
+						}
+					}
+					if cnt == 1 {
+						hk.old, hk.new = o2, n2
+						at = found
+						located = true
 					}
 				}
-				if cnt != 1 {
-					return nil, fmt.Sprintf("hunk of %s does not match the current source (%d candidate positions)", f, cnt)
+				if !located {
+					return nil, fmt.Sprintf("hunk of %s does not match the current source", f)
 				}
-				at = found
 			}
 			next := append([]string{}, src[:at]...)
 			next = append(next, hk.new...)
